@@ -90,6 +90,9 @@ func Harness_C14_DocumentRoundTrip() {
 	withID := verifrt.Choose("with-id", 2) == 1
 	if withID {
 		doc["id"] = "did:example:" + verifrt.AnyAtom("doc-id")
+		if verifrt.Choose("id-kind", 2) == 1 {
+			doc["id"] = 7.0 // an id member of another JSON type is an id all the same
+		}
 	}
 	patches, err := patch.PatchesFromDocument(mustJSON(doc))
 	if withID {
